@@ -371,7 +371,8 @@ def asan_summary(err):
     return err.strip()[-200:]
 
 
-FACT_THMS = ("facts_isWhite_bytes", "facts_expect1", "facts_expect2", "facts_consume", "facts_skipWhites", "facts_parseString",
+FACT_THMS = ("facts_w_spaces", "facts_w_writeHeader", "facts_w_writeFooter", "facts_w_openNode", "facts_w_writeProperty", "facts_w_closeNode",
+             "facts_w_ctor", "facts_node_accessors", "facts_isWhite_bytes", "facts_expect1", "facts_expect2", "facts_consume", "facts_skipWhites", "facts_parseString",
              "facts_parseIdentifier", "facts_parseProp", "facts_consumeComment", "facts_skipComment", "facts_parseHeader",
              "facts_makeString", "facts_parseNode", "facts_parseXML", "facts_consume_word", "facts_readXML_buffer")
 
@@ -389,6 +390,190 @@ def source_facts(ctx):
         open(gen_v, "w").write(factgen.coq_text({}, notes))
     ctx.cov["source_facts_notes"] = notes[:10]
     return notes
+
+
+# ------------------------------------------------------------------ inventory of xml/XML.{h,cpp}
+# every declaration of namespace rkcommon::xml (key = "name type", class qualifier dropped) is either covered
+# by obligations + harness, or out of scope with a reason; an unknown declaration fails the check closed.
+COVERED, OUT = "covered", "out of scope"
+INVENTORY = {
+    "readXML rkcommon::xml::XMLDoc (const std::string &)": (COVERED, "Model.parse + facts_readXML_buffer; reader harness"),
+    "isWhite bool (char)": (COVERED, "facts_isWhite_bytes"), "expect void (char *&, const char)": (COVERED, "facts_expect1"),
+    "expect void (char *&, const char, const char)": (COVERED, "facts_expect2"), "consume void (char *&, const char)": (COVERED, "facts_consume"),
+    "consumeComment void (char *&)": (COVERED, "facts_consumeComment"), "consume void (char *&, const char *)": (COVERED, "facts_consume_word (structural)"),
+    "makeString std::string (const char *, const char *)": (COVERED, "facts_makeString"), "parseString void (char *&, std::string &)": (COVERED, "facts_parseString"),
+    "parseIdentifier bool (char *&, std::string &)": (COVERED, "facts_parseIdentifier"), "skipWhites void (char *&)": (COVERED, "facts_skipWhites"),
+    "parseProp bool (char *&, std::string &, std::string &)": (COVERED, "facts_parseProp"), "skipComment bool (char *&)": (COVERED, "facts_skipComment"),
+    "parseNode rkcommon::xml::Node (char *&)": (COVERED, "facts_parseNode"), "parseHeader bool (char *&)": (COVERED, "facts_parseHeader"),
+    "parseXML void (rkcommon::xml::XMLDoc &, char *)": (COVERED, "facts_parseXML (structural)"),
+    "hasProp bool (const std::string &) const": (COVERED, "facts_node_accessors, has_prop_written; writer harness probes"),
+    "getProp std::string (const std::string &) const": (COVERED, "facts_node_accessors; writer harness probes"),
+    "getProp std::string (const std::string &, const std::string &) const": (COVERED, "facts_node_accessors, get_prop_written; writer harness probes"),
+    "name std::string": (COVERED, "Model.node field; dumped by both harnesses"), "content std::string": (COVERED, "Model.node field"),
+    "properties std::map<std::string, std::string>": (COVERED, "Model.pmap, props_sorted / props_last_wins"), "child std::vector<Node>": (COVERED, "Model.node field"),
+    "fileName rkcommon::FileName": (COVERED, "reader harness checks doc.fileName == path (FileName itself is property C18)"),
+    "Writer void (FILE *, FILE *)": (COVERED, "facts_w_ctor"), "writeHeader void (const std::string &)": (COVERED, "facts_w_writeHeader, writer_round_trip"),
+    "writeFooter void ()": (COVERED, "facts_w_writeFooter"), "openNode void (const std::string &)": (COVERED, "facts_w_openNode, writer_round_trip / writer_nested_refuted"),
+    "writeProperty void (const std::string &, const std::string &)": (COVERED, "facts_w_writeProperty, writer_round_trip / writer_quote_refuted"),
+    "closeNode void ()": (COVERED, "facts_w_closeNode"), "spaces void ()": (COVERED, "facts_w_spaces"),
+    "xml FILE *": (COVERED, "WriterModel.w_out (the bytes written to it)"), "state std::stack<State *>": (COVERED, "WriterModel.w_stack"),
+    "hasContent bool": (COVERED, "WriterModel.w_stack (first component), facts_w_ctor (initialised false)"), "type std::string": (COVERED, "WriterModel.w_stack (second component)"),
+    "bin FILE *": (OUT, "only stored by the constructor; the members that would use it (alignData, writeData) are declared but defined nowhere"),
+    "writeContent void (const std::string &, const std::string &)": (OUT, "declared in XML.h, defined nowhere in the repository (calling it does not link)"),
+    "alignData void (size_t)": (OUT, "declared in XML.h, defined nowhere in the repository"),
+    "writeData size_t (const void *, size_t)": (OUT, "declared in XML.h, defined nowhere in the repository"),
+    "toString std::string (const float)": (OUT, "operator<< float formatting of libstdc++ (no Coq model of %g); the writer harness compares a few values with printf %g"),
+    "toString std::string (const math::vec3f &)": (OUT, "as toString(float); harness checks the 'x y z' shape on one value"),
+    "Node void () noexcept": (OUT, "defaulted special member"), "~Node void () noexcept": (OUT, "defaulted special member"),
+    "XMLDoc void () noexcept(false)": (OUT, "defaulted special member"), "~XMLDoc void () noexcept": (OUT, "defaulted special member"),
+}
+
+
+def inventory_check(ctx):
+    try:
+        inv = json.load(open(os.path.join(ctx.build, "facts.json"))).get("inventory", [])
+    except Exception:
+        inv = []
+    if not inv:
+        ctx.broken.append("inventory of rkcommon/xml/XML.{h,cpp} could not be extracted")
+        return
+    seen = set()
+    for (kind, label, has_body) in inv:
+        key = re.sub(r"^(\w+::)+", "", label)
+        seen.add(key)
+        if key not in INVENTORY:
+            ctx.broken.append("declaration of rkcommon/xml/XML.{h,cpp} that the check does not know: %s %s (add an obligation + harness "
+                              "coverage or list it as out of scope with a reason in props/C16/check.py INVENTORY)" % (kind, label))
+    ctx.cov["inventory"] = {"declarations": len(seen), "covered": sum(1 for k in seen if INVENTORY.get(k, ("",))[0] == COVERED),
+                            "out_of_scope": {k: INVENTORY[k][1] for k in sorted(seen) if INVENTORY.get(k, ("",))[0] == OUT}}
+
+
+# ------------------------------------------------------------------ the Writer
+def ser_ops(ops, keys=()):
+    out = []
+    for o in ops:
+        out += [o[0]] + [hx(x) for x in o[1:]]
+    if keys:
+        out += ["?"] + [hx(k) for k in keys]
+    return " ".join(out)
+
+
+def writer_expected(ops):
+    """the tree a FLAT valid op sequence must read back as"""
+    kids, cur = [], None
+    for o in ops:
+        if o[0] == "O":
+            cur = (o[1], {})
+        elif o[0] == "P":
+            cur[1][o[1]] = o[2]
+        elif o[0] == "C":
+            kids.append("(%s {%s} - [])" % (hx(cur[0]), " ".join("%s=%s" % (hx(k), hx(cur[1][k])) for k in sorted(cur[1]))))
+    return "(- {} - [%s])" % " ".join(kids)
+
+
+def writer_cases(ctx, r):
+    cases = []                                        # (kind, ops, keys)
+    # exhaustive: every sequence of at most 4 operations over a small alphabet
+    alpha = [("H", b"1.0"), ("F",), ("O", b"a"), ("O", b"b"), ("P", b"k", b"v"), ("P", b"k", b"w"), ("C",)]
+    seqs = [[]]
+    for n in range(4):
+        seqs = [s + [a] for s in seqs for a in alpha]
+        for s in seqs:
+            cases.append(("short", s, [b"k", b"z"]))
+    # random flat documents inside the precondition of writer_round_trip
+    for i in range(ctx.pick(1500, 15000)):
+        ops, keys = [], [b"zz"]
+        if r.random() < 0.5:
+            ops.append(("H", g_value(r, b'"')))
+        for _ in range(r.choice([0, 1, 1, 2, 3])):
+            ops.append(("O", g_name(r, [b"a", b"node", b"A_1.x"])))
+            for _ in range(r.choice([0, 0, 1, 2, 3, 4])):
+                k = g_name(r, [b"a", b"b", b"id", b"x.y"])
+                keys.append(k)
+                ops.append(("P", k, g_value(r, b'"')))
+            ops.append(("C",))
+            if r.random() < 0.2:
+                ops.append(("F",))
+        ops.append(("F",))
+        cases.append(("flat", ops, keys[:6]))
+    # random sequences outside it: nesting, values with quotes / backslashes / '<' / NUL, odd names
+    odd = [b'x"y', b'x" z="1', b"\\", b"a\\", b"<", b"a<b", b"", b"\0x", b"1a", b"a b", b"v"]
+    for i in range(ctx.pick(1500, 15000)):
+        ops, depth = [], 0
+        for _ in range(r.randint(1, 8)):
+            c = r.random()
+            if c < 0.35:
+                ops.append(("O", r.choice([b"a", b"b", b"n1", r.choice(odd)])))
+                depth += 1
+            elif c < 0.65 and depth > 0:
+                ops.append(("P", r.choice([b"k", b"q", r.choice(odd)]), r.choice(odd)))
+            elif c < 0.9 and depth > 0:
+                ops.append(("C",))
+                depth -= 1
+            elif c < 0.95:
+                ops.append(("H", r.choice(odd)))
+            else:
+                ops.append(("F",))
+        while depth > 0 and r.random() < 0.8:
+            ops.append(("C",))
+            depth -= 1
+        cases.append(("any", ops, [b"k", b"q"]))
+    return cases
+
+
+def writer_check(ctx, model, wexe, scratch):
+    r = ctx.rng("writer")
+    cases = writer_cases(ctx, r)
+    lines = [ser_ops(ops, keys) for (_, ops, keys) in cases]
+    rc, ml, merr = vlib.run_lines(ctx, model, ["writer"], lines, timeout=900)
+    if rc != 0 or len(ml) != len(lines):
+        ctx.broken.append("model driver (writer) failed rc=%s lines=%d/%d %s" % (rc, len(ml), len(lines), merr[-300:]))
+        return
+    run_idx = [i for i, m in enumerate(ml) if m not in ("ABORT", "BADCASE")]
+    if any(m == "BADCASE" for m in ml):
+        ctx.broken.append("writer driver rejected a generated op sequence")
+    rc, o, err = ctx.run_exe(wexe, [scratch], stdin="\n".join(lines[i] for i in run_idx) + "\n", timeout=1500)
+    il = o.split("\n")
+    ts = il[0] if il else ""
+    il = il[1:]
+    import struct
+    want = "TOSTRING " + " ".join("%g" % struct.unpack("f", struct.pack("f", x))[0]
+                                  for x in (0.0, 1.5, -2.25, 1e10, 1e-5, 3.14159274, 123456.789, 100000.0, 1000000.0)) + " | 1 -0.5 0.001"
+    if ts != want:
+        ctx.violation("xml::toString does not format like operator<< / %g", {"observed": ts, "required": want})
+    hist = {"abort_by_assert": len(lines) - len(run_idx)}
+    bad_model, bad_tree, outside_not_read_back = [], [], 0
+    for n, i in enumerate(run_idx):
+        got = il[n] if n < len(il) else "<no output: harness died rc=%s %s>" % (rc, asan_summary(err))
+        kind, ops, keys = cases[i]
+        hist[kind] = hist.get(kind, 0) + 1
+        parts = got.split(" ")
+        if got != ml[i]:
+            bad_model.append((i, got))
+        elif kind == "flat" and (len(parts) < 2 or got.split(" acc")[0].split(" ", 1)[1] != writer_expected(ops)):
+            bad_tree.append((i, got))
+        elif kind != "flat" and " THROW" in got:
+            outside_not_read_back += 1
+        if kind == "flat" or (len(ops) >= 3 and "THROW" not in got):
+            ctx.nontriv("w" + lines[i])
+    ctx.count(len(run_idx))
+    hist["outside_precondition_not_read_back"] = outside_not_read_back
+    ctx.cov["writer_cases"] = hist
+
+    def show(ops):
+        return " ".join(o[0] + "(" + ",".join(repr(x)[1:] for x in o[1:]) + ")" for o in ops)
+    for (i, got) in sorted(bad_tree, key=lambda x: len(lines[x[0]]))[:2]:
+        ctx.violation("a Writer op sequence inside the precondition of writer_round_trip is not read back as written (%d of %d)"
+                      % (len(bad_tree), hist.get("flat", 0)),
+                      {"ops": show(cases[i][1]), "case": lines[i], "observed": got, "required_tree": writer_expected(cases[i][1]), "model": ml[i]})
+    for (i, got) in sorted(bad_model, key=lambda x: len(lines[x[0]]))[:3]:
+        if bad_tree:
+            break
+        # the model's own round-trip theorem tells what the written bytes must be: a difference in the bytes of a
+        # sequence with valid names/values, or in hasProp/getProp, is a violation; otherwise correspondence drift
+        kind, ops, keys = cases[i]
+        ctx.violation("the real Writer / readXML / getProp differ from the model on an op sequence (%d sequences)" % len(bad_model),
+                      {"ops": show(ops), "case": lines[i], "observed": got, "required": ml[i]})
 
 
 def first_failing_fact(ctx):
@@ -423,10 +608,14 @@ def run(ctx):
                              "extractor notes: %s" % (first, "; ".join(notes[:4]) or "none"))
         ctx.log("source-derived obligation broken, first failing lemma: %s; notes: %s" % (first, notes[:4]))
     model = ctx.extract(snippets=["conv_N.ml"])
-    exe = ctx.cxx(["harness.cpp"], "harness", repo_sources=REPO_SRC, sanitize="asan")
-    if not model or not exe:
+    exe, wexe = ctx.cxx_many([dict(sources=["harness.cpp"], out="harness", repo_sources=REPO_SRC, sanitize="asan"),
+                              dict(sources=["writer_harness.cpp"], out="writer_harness", repo_sources=REPO_SRC, sanitize="asan")])
+    if not model or not exe or not wexe:
         return
     scratch = os.path.join(ctx.build, "case.xml")
+    inventory_check(ctx)
+    if not getattr(ctx, "replay", None):
+        writer_check(ctx, model, wexe, os.path.join(ctx.build, "writer.xml"))
 
     if getattr(ctx, "replay", None):
         doc = json.load(open(ctx.replay))
